@@ -39,8 +39,9 @@ CALLEE = {
 class XCIdentity:
     """Callable obligation: derivative identity of one functional."""
 
-    def __init__(self, f, Nspin, kind, s, params=None, modular=None, T=None, slot="x", points=(0, 1)):
+    def __init__(self, f, Nspin, kind, s, params=None, modular=None, T=None, slot="x", points=(0, 1), param_syms=None):
         self.f, self.Nspin, self.kind, self.s, self.params, self.modular, self.T = f, Nspin, kind, s, params, modular, T
+        self.param_syms = param_syms  # {keyword parameter of the functional: default (float or tuple of floats)}: handed to get_xc as symbols
         self.slot, self.points = slot, points
         self.gga = f.startswith("gga")
 
@@ -54,6 +55,11 @@ class XCIdentity:
             stubs = {f"{cmod}:{cname + ('_spin' if spin else '')}": stub}
             extra = X.stub_env(S, spin)
         params = dict(self.params or {})
+        for name, dflt in (self.param_syms or {}).items():
+            if isinstance(dflt, tuple):
+                params[name] = tuple(S.C.var(f"par_{name}{i}", positive=d > 0) for i, d in enumerate(dflt))
+            else:
+                params[name] = S.C.var(f"par_{name}", positive=dflt > 0)
         if self.T is not None:
             params["T"] = S.C.var("T", positive=True) if self.T == "pos" else 0
         pair = (self.f, "mock_xc") if self.slot == "x" else ("mock_xc", self.f)
@@ -102,6 +108,18 @@ class XCIdentity:
                 env = _b(r) if _b else {}
                 env["T"] = 10 ** r.uniform(-2, 0.5)
                 return env
+        if self.param_syms:
+            base_extra2 = extra
+
+            def extra(r, _b=base_extra2):  # noqa: E731
+                env = _b(r) if _b else {}
+                for name, d in self.param_syms.items():
+                    if isinstance(d, tuple):
+                        for i, x in enumerate(d):
+                            env[f"par_{name}{i}"] = x * r.uniform(0.8, 1.2)
+                    else:
+                        env[f"par_{name}"] = d * r.uniform(0.8, 1.2)
+                return env
         if self.kind == "vsigma" and vsigma is None:
             return Result(REFUTED, backend="engine-A", detail="functional returned vsigma=None", witness=None)
         budget = ob.budget.get(tier, 60)
@@ -115,6 +133,9 @@ class XCIdentity:
                 if out.witness and "env" in out.witness:
                     out.witness.update(f=self.f, Nspin=self.Nspin, kind=self.kind, s=self.s, params=_jsonable(self.params),
                                        T=self.T, label=label)
+                    if self.param_syms:
+                        env = out.witness["env"]
+                        out.witness["xc_params"] = {name: ([float(env[f"par_{name}{i}"]) for i in range(len(d))] if isinstance(d, tuple) else float(env[f"par_{name}"])) for name, d in self.param_syms.items()}
                     ok, info = self.replay(out.witness)
                     out.replayed, out.replay_info = ok, info
                 return out
@@ -402,6 +423,48 @@ def _register():
 
 
 _register()
+
+
+def _register_symbolic_parameters():
+    """`all functional parameters` of the property: the functionals that take numeric keyword parameters are traced once more with those parameters as
+    SYMBOLS (handed through get_xc's xc_params), so that the identity holds for every parameter value, not only for the defaults."""
+    import inspect
+
+    from pycv.loader import source_of
+    import ast as _ast
+
+    for f, Nspin in (("lda_c_pw", 1), ("lda_c_pw", 2), ("lda_c_vwn", 1), ("gga_x_pbe", 1), ("gga_x_pbe", 2)):  # gga_c_pbe: symbolic beta in the modular proof (contracts/c02_modular.py)
+        label = f + ("_spin" if Nspin == 2 else "")
+        # defaults are read from the tree under check (AST of the function definition)
+        try:
+            fn = next(n for n in _ast.parse(source_of(f"eminus.xc.{f}")).body if isinstance(n, _ast.FunctionDef) and n.name == label)
+        except (StopIteration, OSError, SyntaxError):
+            continue
+        names = [a.arg for a in fn.args.args]
+        dfl = dict(zip(names[len(names) - len(fn.args.defaults):], fn.args.defaults))
+        syms = {}
+        for k, v in dfl.items():
+            try:
+                val = _ast.literal_eval(v)
+            except (ValueError, SyntaxError):
+                continue
+            if isinstance(val, float) and k != "T":
+                syms[k] = val
+            elif isinstance(val, tuple) and val and all(isinstance(x, float) for x in val):
+                syms[k] = val
+        if not syms:
+            continue
+        gga = f.startswith("gga")
+        for s in range(Nspin):
+            sp = SP[s] if Nspin == 2 else "n"
+            for kind in (("vxc", "vsigma") if gga else ("vxc",)):
+                register(Obligation(name=f"C02.{label}.{kind}_{sp}.symbolic_parameters", prop=PROP, engine="A", functions=[fn_of(f, Nspin), "eminus.xc.utils:get_xc"],
+                                    run=XCIdentity(f, Nspin, kind, s, param_syms=syms, slot="c" if "_c_" in f else "x"), budget={"quick": 150, "thorough": 900},
+                                    assumes=("reals", "generic", "engineA", "chain-rule", "numpy-structural"),
+                                    doc=f"{kind} identity of {label} with its keyword parameters {sorted(syms)} as symbols (handed through xc_params): holds for every parameter value"))
+
+
+_register_symbolic_parameters()
 
 
 # ------------------------------------------------------------------------------------------------
